@@ -401,6 +401,12 @@ func (f *frame) optsHelperCalls() []*ssa.Call {
 				out = append(out, call)
 				return
 			}
+			// ... or one field of it (`r.newBaseResponse(opts.withResponseCode)`): the helper's branches on that
+			// parameter are branches on the option
+			if _, isField := f.optsField(a); isField {
+				out = append(out, call)
+				return
+			}
 		}
 	})
 	return out
@@ -1075,7 +1081,16 @@ func (f *frame) call(x *ssa.Call, k *an.Walk) {
 			for _, o := range list {
 				switch o.Ctor.Fn.Name() {
 				case "withTag":
-					if k, ok := an.IntConst(o.Args[0]); ok {
+					k, ok := an.IntConst(o.Args[0])
+					if !ok {
+						// the tag is a parameter of an inlined helper: its value under the caller's substitution
+						if kk, err := strconv.ParseInt(f.sym(o.Args[0]), 10, 64); err == nil {
+							k, ok = kk, true
+						} else {
+							tag = f.sym(o.Args[0])
+						}
+					}
+					if ok {
 						tag = fmt.Sprint(k)
 						if cl == 0 {
 							if n, ok := uniTags[k]; ok {
@@ -1125,10 +1140,22 @@ func (f *frame) call(x *ssa.Call, k *an.Walk) {
 			}
 			r := f.c.interp(callee, env, sub, nil)
 			if r.undec == "" && len(r.retExpr) > 0 {
-				f.tuples[x] = r.retExpr
-				if len(r.retExpr) == 1 {
-					f.elem[x] = r.retExpr[0]
-					f.cache[x] = r.retExpr[0]
+				// objects the helper allocated (a response part it built) become objects of the caller
+				pre := "alloc:" + callee.Name() + "@" + x.Name() + "/"
+				ren := f.renamer(pre)
+				if r.fr != nil {
+					for mk, mv := range r.fr.mem {
+						f.mem[ren(mk)] = ren(mv)
+					}
+				}
+				var tup []string
+				for _, e := range r.retExpr {
+					tup = append(tup, ren(e))
+				}
+				f.tuples[x] = tup
+				if len(tup) == 1 {
+					f.elem[x] = tup[0]
+					f.cache[x] = tup[0]
 				}
 			} else {
 				f.notes = append(f.notes, "helper "+an.ShortName(callee)+": "+r.undec)
